@@ -6,6 +6,18 @@ BASE = "cd /repo && /venv/bin/python -m pytest -ra -q -p no:cacheprovider --time
 
 # id -> (engine, level, technique, level text, level note, design ref)
 CHECKS = {
+ "C02": ("LX", "exploration",
+         "bounded-exhaustive differential enumeration: for each of the 47 shared functions the complete (quick: deterministically strided) product of argument palettes is run through the port and through the vendored reference library, results compared by shape and value",
+         "Rigid-body algebra on the C01 lattices (incl. non-members near the membership thresholds), all chains J^n for n <= 3 (n = 4 complete in thorough) and windows to 7 joints for FK/Jacobians/IK/dynamics, time scalings, joint/screw/Cartesian trajectories N = 2..12, dynamics trajectories and simulated control; 'never raises where the reference returns'; IK: success meets tolerances and both solvers agree where sigma_min >= 0.05.",
+         "float64 C-contiguous arguments only (layouts are C17's); cases where the reference itself returns non-finite values or sits on the 1e-6 cut-off tie are counted and skipped; quick tier thinned with strides coprime to all palette sizes (listed in the rule).", "DESIGN 4/C02"),
+ "C09": ("LX", "exploration",
+         "bounded-exhaustive enumeration over a platform-geometry family x bases x re-spins x the complete 3^6 relative-pose grid, against point-to-point distances computed from plate-fixed coordinates read once at the neutral pose; FK round trip on a fixed sub-lattice with a committed known-finding case list",
+         "IK lengths equal joint-to-joint distances (1e-9), rigid-motion invariance, re-spin clause (at neutral and non-neutral poses, twice in a row), FK of the lengths (both solver paths) recovers pose and lengths to 1e-3 of the neutral height for every in-workspace pose; quick: 7 geometries, thorough: all 432 + seed geometry.",
+         "FK failures are matched against known_findings/c09_fk_cases.txt (KF2: explicit case ids with a marginal band, one structural class for fsolve started from a zero rotation vector); any unlisted failure is a violation. Time caps are reported with exhaustive:false.", "DESIGN 4/C09"),
+ "C11": ("LX", "exploration",
+         "bounded-exhaustive enumeration over geometries x bases x the 3^6 pose grid x the complete twist/wrench bases, against Richardson differences of the IK lengths and independent statics",
+         "inverseJacobian columns equal Richardson central differences of leg lengths along spatial twists of the top plate (1e-6), static equilibrium, summed actuator wrenches, inverse statics, the body-frame pair, and the mass-carrying variant with plate and shaft weights at their centres of gravity, at identity, a generic and a seed-generic base, on every in-workspace pose with cond <= 1e4.",
+         "Finite geometry/pose lattice; conventions (moment-first wrenches, Ad^T frame change) are themselves verified by a dedicated part; linear maps decided on complete bases.", "DESIGN 4/C11"),
  "C16": ("CX", "model_checking",
          "stateless choice-sequence exploration (prefix replay, default answer 0, branching at every later environment question, deviation-bounded) of the real RRT* growth loop with the sampler and the random source scripted; tree invariants and an independent brute-force nearest-neighbour replay of the insertion order on every complete execution",
          "All sample sequences over a 10-pose menu for iteration budgets 1-3 (quick) / 1-4 (thorough) with a draw horizon, deviation-bounded runs to budget 12, and the default findPath path with random.uniform scripted per coordinate, crossed with 4 obstruction layouts x 2 distance modes x 3 neighbour limits: rootedness, acyclic parent links, cost bookkeeping, edge freedom, acceptance range, choice of parent, node count, returned path.",
